@@ -82,7 +82,7 @@ let parse_ops toks = List.map (fun t ->
   let o = match Char.lowercase_ascii c with
     | 'v' -> OValue | 'a' -> OAdvance | 'r' -> OReset | 'c' -> OClone | 'k' -> OConsume | 'w' -> OWalk | 's' -> OString
     | 'y' -> OKey | 'q' -> OKeyN | 'x' -> OVec | 'o' -> OVecN | 'u' -> OUint | 'j' -> OWalkK | 'l' -> OWalkV
-    | 'm' -> OMeta | 'z' -> OSkip
+    | 'm' -> OMeta | 'z' -> OSkip | 'n' -> OMetaS
     | _ -> failwith ("bad op " ^ t) in
   (o, upper)) toks
 
@@ -95,14 +95,14 @@ let hexb b = hex_of_bytes b
 let show_meta strkind r =
   let c = Array.of_list (List.map zs r.mr_codes) in
   let head = Printf.sprintf "M:%s:%s/%s:%s/1:%s:%s" c.(0) c.(1) (hexb r.mr_fmt) c.(2) c.(3) c.(4) in
-  if strkind then Printf.sprintf "%s:%s:%s:%s:%s" head c.(5) c.(6) c.(7) c.(8)
+  if strkind then Printf.sprintf "%s:%s:%s:%s:%s:%s" head c.(5) c.(6) c.(7) c.(8) c.(9)
   else begin
     let same k = if int_of_string c.(k) < 0 then c.(k) ^ "/-1" else c.(k) ^ "/1" in
     let vec k = if int_of_string c.(k) < 0 then c.(k) ^ "/-" else
       c.(k) ^ "/" ^ (match r.mr_vec with Some b -> hexb b | None -> "null/0") in
     let str = if int_of_string c.(12) < 0 then c.(12) ^ "/-" else
       c.(12) ^ "/" ^ (match r.mr_str with MNull -> "null" | MStr b -> hexb b | MOpen b -> "open:" ^ hexb b) in
-    Printf.sprintf "%s:%s:%s:%s:%s:%s:%s:%s:%s:%s" head (same 5) c.(6) (same 7) c.(8) (vec 9) (vec 10) c.(11) str c.(13)
+    Printf.sprintf "%s:%s:%s:%s:%s:%s:%s:%s:%s:%s:%s" head (same 5) c.(6) (same 7) c.(8) (vec 9) (vec 10) c.(11) str c.(13) c.(14)
   end
 let show_m strkind (op, _) o = match o with
   | OutB (c, b) ->
@@ -111,7 +111,7 @@ let show_m strkind (op, _) o = match o with
      | Some b when int_of_z c >= 0 -> pre ^ ":" ^ zs c ^ ":" ^ hexb b
      | None when int_of_z c >= 0 -> pre ^ ":" ^ zs c ^ ":null"
      | _ -> pre ^ ":" ^ zs c)
-  | OutC c -> (if op = OKeyN then "Yn" else "Xn") ^ ":" ^ zs c
+  | OutC c -> (match op with OKeyN -> "Yn" | OMetaS -> "Sn" | _ -> "Xn") ^ ":" ^ zs c
   | OutU (c, v) -> if int_of_z c < 0 then "G:" ^ zs c else
       "G:" ^ zs c ^ ":" ^ (match v with Some n -> string_of_int (int_of_n n) | None -> "unset")
   | OutWB (l, e) -> Printf.sprintf "%s:%d:%s:%s" (if op = OWalkK then "J" else "H") (List.length l) (wend_m e)
@@ -153,6 +153,7 @@ let show_s cf (op, _) o = match op, o with
   | (OKeyN | OVecN), SoV (Some _, _) -> (if op = OKeyN then "Yn" else "Xn") ^ ":+"
   | (OWalkK | OWalkV), SoW (l, e) -> Printf.sprintf "%s:%d:%s:%s" (if op = OWalkK then "J" else "H") (List.length l) (wend_s e)
                                        (join (List.map elem_hex l))
+  | OMetaS, SoK true -> "Sn:+"
   | _, SoZ (ARefused, _) -> "Z:-" | _, SoZ (ANotMore, _) -> "Z:<=0"
   | _, SoZ (_, true) -> "Z:+" | _, SoZ (_, false) -> "Z:0"
   | _ -> match o with
